@@ -659,35 +659,57 @@ func (st *verifC13State) scan() string {
 		}
 	}
 	st.kc.mtx.Unlock()
-	var out strings.Builder
+	// match: single-segment blocks by buffer identity first (exact), then multi-segment blocks by
+	// content among the calls that are left
+	matched := map[<-chan struct{}]*verifC13Put{}
+	taken := map[*verifC13Put]bool{}
 	for _, ch := range order {
-		ms := news[ch]
-		var match []*verifC13Put
-		if len(ms) == 1 {
+		if ms := news[ch]; len(ms) == 1 {
 			for _, p := range free {
-				if p.group < 0 && len(p.p) > 0 && &p.p[0] == ms[0].ptr {
-					match = append(match, p)
-				}
-			}
-		} else {
-			byName := append([]verifC13Member(nil), ms...)
-			sort.SliceStable(byName, func(i, j int) bool {
-				if byName[i].name != byName[j].name {
-					return byName[i].name < byName[j].name
-				}
-				return byName[i].idx < byName[j].idx
-			})
-			var block []byte
-			for _, m := range byName {
-				block = append(block, m.data...)
-			}
-			for _, p := range free {
-				if p.group < 0 && bytes.Equal(p.snap, block) {
-					match = append(match, p)
+				if !taken[p] && len(p.p) > 0 && &p.p[0] == ms[0].ptr {
+					matched[ch], taken[p] = p, true
+					break
 				}
 			}
 		}
-		if len(match) == 0 {
+	}
+	for _, ch := range order {
+		ms := news[ch]
+		if len(ms) == 1 {
+			continue
+		}
+		byName := append([]verifC13Member(nil), ms...)
+		sort.SliceStable(byName, func(i, j int) bool {
+			if byName[i].name != byName[j].name {
+				return byName[i].name < byName[j].name
+			}
+			return byName[i].idx < byName[j].idx
+		})
+		var block []byte
+		for _, m := range byName {
+			block = append(block, m.data...)
+		}
+		n := 0
+		for _, p := range free {
+			if !taken[p] && bytes.Equal(p.snap, block) {
+				if n == 0 {
+					matched[ch] = p
+				}
+				n++
+			}
+		}
+		if n > 0 {
+			taken[matched[ch]] = true
+		}
+		if n > 1 {
+			st.flags = append(st.flags, "ambiguous")
+		}
+	}
+	var out strings.Builder
+	for _, ch := range order {
+		ms := news[ch]
+		put := matched[ch]
+		if put == nil {
 			// no PutB is parked for this channel: its goroutine has already left PutB (sync
 			// commitBlock returns its error before the deferred close(done) has run) and is about
 			// to close it
@@ -699,12 +721,9 @@ func (st *verifC13State) scan() string {
 			st.known[ch] = true
 			continue
 		}
-		if len(match) > 1 {
-			st.flags = append(st.flags, "ambiguous")
-		}
 		g := len(st.groups)
-		match[0].group = g
-		st.groups = append(st.groups, &verifC13Group{ch: ch, put: match[0]})
+		put.group = g
+		st.groups = append(st.groups, &verifC13Group{ch: ch, put: put})
 		st.known[ch] = true
 		fmt.Fprintf(&out, "+g%d:", g)
 		for i, m := range ms {
@@ -741,13 +760,39 @@ func (st *verifC13State) complete(g int, ok bool) (ran bool, alive bool) {
 	}
 	grp := st.groups[g]
 	st.releasePut(grp.put, ok)
-	select {
-	case <-grp.ch:
-	case <-time.After(time.Until(st.deadline)):
-		return true, false
+	ambiguous := false
+	for _, f := range st.flags {
+		ambiguous = ambiguous || f == "ambiguous"
 	}
-	grp.done = true
-	return true, true
+	if !ambiguous {
+		select {
+		case <-grp.ch:
+		case <-time.After(time.Until(st.deadline)):
+			return true, false
+		}
+		grp.done = true
+		return true, true
+	}
+	// Two parked PutB calls carried identical bytes, so the call released may belong to another
+	// group's goroutine: wait for whichever unfinished group finishes and swap the bookkeeping (the
+	// case is not compared with the model any more, see FLAGS=ambiguous).
+	for {
+		if verifC13Closed(grp.ch) {
+			grp.done = true
+			return true, true
+		}
+		for _, other := range st.groups {
+			if other != grp && !other.done && verifC13Closed(other.ch) {
+				other.done = true
+				grp.put, other.put = other.put, grp.put
+				return true, true
+			}
+		}
+		if time.Now().After(st.deadline) {
+			return true, false
+		}
+		time.Sleep(50 * time.Microsecond)
+	}
 }
 
 type verifC13Req struct {
